@@ -114,7 +114,8 @@ func BuildPattern(cache *ChunkCache, patternCache map[string]*Pattern, fuzzy boo
 	} else {
 		lowerString := strings.ToLower(asString)
 		normalize = normalize &&
-			lowerString == string(algo.NormalizeRunes([]rune(lowerString)))
+			lowerString == string(algo.NormalizeRunes([]rune(lowerString))) &&
+			asString == string(algo.NormalizeRunes([]rune(asString)))
 		caseSensitive = caseMode == CaseRespect ||
 			caseMode == CaseSmart && lowerString != asString
 		if !caseSensitive {
@@ -192,8 +193,10 @@ func parseTerms(fuzzy bool, caseMode Case, normalize bool, str string) []termSet
 		lowerText := strings.ToLower(text)
 		caseSensitive := caseMode == CaseRespect ||
 			caseMode == CaseSmart && text != lowerText
+		// The term carries an accent if the text we are going to match does
 		normalizeTerm := normalize &&
-			lowerText == string(algo.NormalizeRunes([]rune(lowerText)))
+			lowerText == string(algo.NormalizeRunes([]rune(lowerText))) &&
+			text == string(algo.NormalizeRunes([]rune(text)))
 		if !caseSensitive {
 			text = lowerText
 		}
